@@ -35,6 +35,56 @@ theorem C17_copy_bounds (path buf : Bytes) :
     subst h0
     simp
 
+/-- the caller's retry protocol works: a buffer of exactly the length returned
+by a first call (whatever that call's buffer was) receives the whole link body -/
+theorem C17_copy_retry_complete (path buf : Bytes) (h : buf.length = path.length) :
+    copyPathIntoBuffer path (some buf) buf.length = (path.length, some path) := by
+  simp only [copyPathIntoBuffer]
+  by_cases h0 : buf.length > 0
+  · have h0' : path.length > 0 := by omega
+    simp only [h, h0', ↓reduceIte, Nat.min_self]
+    rw [List.take_of_length_le (by omega), List.drop_eq_nil_of_le (by omega)]
+    simp
+  · have hb : buf = [] := List.eq_nil_of_length_eq_zero (by omega)
+    have hp : path = [] := List.eq_nil_of_length_eq_zero (by omega)
+    subst hb hp
+    simp
+
+/-- truncation is visible in the return value: the caller's buffer holds the
+whole link body exactly when the returned length fits in it -/
+theorem C17_copy_truncated_iff (path buf : Bytes) :
+    let r := copyPathIntoBuffer path (some buf) buf.length
+    (∃ out, r.2 = some out ∧ out.take path.length = path) ↔ r.1 ≤ buf.length := by
+  obtain ⟨h1, out, h2, h3, h4, _⟩ := C17_copy_bounds path buf
+  simp only at h1 h2 h3 h4 ⊢
+  rw [h1, h2]
+  constructor
+  · rintro ⟨o, ho, ht⟩
+    cases ho
+    have := congrArg List.length ht
+    simp only [List.length_take] at this
+    omega
+  · intro hle
+    refine ⟨out, rfl, ?_⟩
+    rw [Nat.min_eq_left hle] at h4
+    rw [h4, List.take_of_length_le (Nat.le_refl _)]
+
+/-- a larger buffer never changes what a smaller one received: the bytes
+written into a buffer of size `n` are a prefix of those written into any
+buffer of size `m ≥ n` -/
+theorem C17_copy_prefix_monotone (path b1 b2 : Bytes) (hle : b1.length ≤ b2.length) :
+    ∃ o1 o2, (copyPathIntoBuffer path (some b1) b1.length).2 = some o1 ∧
+      (copyPathIntoBuffer path (some b2) b2.length).2 = some o2 ∧
+      o1.take (min path.length b1.length) = o2.take (min path.length b1.length) := by
+  obtain ⟨_, o1, e1, _, t1, _⟩ := C17_copy_bounds path b1
+  obtain ⟨_, o2, e2, _, t2, _⟩ := C17_copy_bounds path b2
+  refine ⟨o1, o2, e1, e2, ?_⟩
+  rw [t1]
+  have : min path.length b1.length ≤ min path.length b2.length := by omega
+  have h := congrArg (List.take (min path.length b1.length)) t2
+  simp only [List.take_take, Nat.min_eq_left this] at h
+  rw [h]
+
 /-- a NULL buffer is allowed: nothing is written, the length is still returned -/
 theorem C17_copy_null (path : Bytes) (bufsize : Nat) :
     copyPathIntoBuffer path none bufsize = (path.length, none) := rfl
@@ -141,4 +191,6 @@ example : (copyPathIntoBuffer b!"abcdef" (some [1, 2, 3, 4]) 4) = (6, some b!"ab
 example : (copyPathIntoBuffer b!"ab" (some [1, 2, 3, 4]) 4) = (2, some [97, 98, 3, 4]) := by decide
 example : mknodType (S_IFLNK ||| 0o777) 0 = .error .invalidArgument :=
   C17_invalid_mode_rejected _ _ (by decide)
+example : (copyPathIntoBuffer b!"abcd" (some [1, 2, 3, 4]) 4) = (4, some b!"abcd") :=
+  C17_copy_retry_complete _ _ rfl
 example : ∃ b, procBase PATHRS_PROC_SELF = .ok b := ⟨_, rfl⟩
